@@ -229,6 +229,25 @@ def run(ctx):
                                 break
                         if bad:
                             break
+                own_residual = _own_residual_exits(eff, b, du, e, err_exits)
+                if bad is None and "cluster-content" in e.tags and e.bb not in C and not _whole_cluster_removed(b, e):
+                    # the epoch a member proxy is served is the cluster's: a refusal after the cluster's content was
+                    # edited must not leave the edit under the old cluster epoch either
+                    for desc, succs, res in views:
+                        if res is not None and e.bb not in res.exec_blocks:
+                            continue
+                        pre = _pre(b, e.bb, C, succs)
+                        if pre is None:
+                            continue
+                        for x in err_exits:
+                            if x in own_residual:
+                                continue   # the callee refuses before it writes: its own Err carries no edit
+                            post = cfg.path_between(b, e.bb, x, avoid=C, succs=succs) if x != e.bb else [x]
+                            if post is not None:
+                                bad = (desc + "; cluster epoch", pre, post)
+                                break
+                        if bad:
+                            break
                 ctx.check(bad is None, "C04.D1", "err-after-write:" + wkey, site(b, e.bb, e.idx),
                           ok="no Err return after %s without versioning" % e.desc,
                           bad="%s can be followed by an Err return with no epoch increase: content changed under an unchanged epoch (flags %s)" % (e.desc, bad[0] if bad else ""),
@@ -265,6 +284,66 @@ def run(ctx):
     ctx.rule("C04.D4", "storage back-ends agree: for every MetaStorage method the in-memory and the external back-end call the same MetaStore methods, and the external one writes the store back after a mutator")
     _backends_agree(ctx)
     _external_restore_guard(ctx)
+
+
+def _refuses_before_writing(eff, path, stack=()):
+    """a Result-returning crate callee none of whose content writes can be followed by one of its own Err exits"""
+    cache = eff.__dict__.setdefault("_rbw", {})
+    if path in cache:
+        return cache[path]
+    b = eff.bodies.get(path)
+    if b is None or path in stack or not b.locals[0]["ty"].startswith("std::result::Result<"):
+        return False
+    _, errs = _exits(b)
+    res = True
+    for e in eff.events(b):
+        if not (e.tags & CONTENT_TAGS):
+            continue
+        own = set()
+        if e.callee and e.callee in eff.bodies and e.desc.startswith("call ") and _refuses_before_writing(eff, e.callee, stack + (path,)):
+            own = _own_residual_exits(eff, b, DefUse(b), e, errs)
+        for x in errs:
+            if x in own:
+                continue
+            if x == e.bb or cfg.path_between(b, e.bb, x) is not None:
+                res = False
+                break
+        if not res:
+            break
+    cache[path] = res
+    return res
+
+
+def _own_residual_exits(eff, b, du, e, err_exits):
+    """Err exits of `b` that only forward the Err of the crate call `e` itself, when that callee refuses before writing"""
+    if not (e.callee and e.callee in eff.bodies and e.desc.startswith("call ")):
+        return set()
+    if not _refuses_before_writing(eff, e.callee):
+        return set()
+    out = set()
+    for x in err_exits:
+        t = b.blocks[x].term
+        if t["k"] != "call" or callee_decl(t) != "std::ops::FromResidual::from_residual" or not t["args"]:
+            if x == e.bb:
+                out.add(x)   # `return helper(..)`: the delegation's own result
+            continue
+        # the `?` this residual belongs to: the closest dominating Try::branch; its operand must be the call's result
+        dom = b.__dict__.get("_dom_c04")
+        if dom is None:
+            dom = cfg.dominators(b)
+            b.__dict__["_dom_c04"] = dom
+        brs = [d for d in dom.get(x, ()) if d != x and b.blocks[d].term["k"] == "call"
+               and callee_decl(b.blocks[d].term) == "std::ops::Try::branch"]
+        if not brs:
+            continue
+        br = max(brs, key=lambda d: len(dom[d]))
+        bt = b.blocks[br].term
+        a = bt["args"][0] if bt["args"] else None
+        pl = (a.get("mv") or a.get("cp")) if isinstance(a, dict) else None
+        ct = b.blocks[e.bb].term
+        if pl and not pl["p"] and not ct["dest"]["p"] and pl["l"] == ct["dest"]["l"] and ct.get("target") == br:
+            out.add(x)
+    return out
 
 
 def _is_barrier(F, eff, e):
